@@ -62,4 +62,15 @@ theorem Script.wf {a b : Nat} {xs ys : List α} {hs : List (Hunk α)} (t : Scrip
       rw [px, py, p1, p2]
       omega
 
+theorem mem_seg {α : Type} {l : List α} {a b : Nat} {s : α} (h : s ∈ seg l a b) : s ∈ l :=
+  List.mem_of_mem_drop (List.mem_of_mem_take h)
+
+theorem mem_sides {α : Type} [DecidableEq α] (b : List (Tag × α)) (p : Tag × α) (h : p ∈ b) :
+    p.2 ∈ oldSide b ∨ p.2 ∈ newSide b := by
+  obtain ⟨t, s⟩ := p
+  cases t
+  · left; simp only [oldSide, List.mem_filterMap]; exact ⟨_, h, by simp⟩
+  · left; simp only [oldSide, List.mem_filterMap]; exact ⟨_, h, by simp⟩
+  · right; simp only [newSide, List.mem_filterMap]; exact ⟨_, h, by simp⟩
+
 end GIV.Diff
